@@ -32,15 +32,16 @@ Speaks(rec) == CExpressible(rec.e, rec.frag) /\
 \* drift of the A-layer transcription (C14_CModel, evaluated by the generator and
 \* shipped in rec.a) against the recorded run: environments in which the program
 \* printed another value than predicted.  A predicted trap is undefined behaviour
-\* in C (gcc folds (x/y) ^ (x/y) to 0 without dividing): no claim.
+\* in C (gcc folds (x/y) ^ (x/y) to 0 without dividing), and an observed trap may
+\* come from a hoisted assignment that the transcription (Dev_CSEAsCast) evaluates
+\* lazily inside || && ?: -- no claim in either case.
 DriftCount(rec) ==
     LET n == Len(EnvsOf(rec.frag)) IN
     Cardinality({ i \in 1..n :
         LET c == rec.a[i] g == rec.r[i] IN
         IF c.k = "cbad" THEN rec.ce = 0 /\ rec.ex = ""
         ELSE IF rec.ce = 1 THEN TRUE
-        ELSE IF IsUnrep(c) \/ IsUnrep(g) \/ IsErr(c) THEN FALSE
-        ELSE IF IsErr(g) THEN TRUE
+        ELSE IF IsUnrep(c) \/ IsUnrep(g) \/ IsErr(c) \/ IsErr(g) THEN FALSE
         ELSE ~ValEq(c, g) })
 
 Report ==
